@@ -183,7 +183,10 @@ def judge(run: Run, res, gen: str) -> None:
     for a, b in zip(dd, dn):
         if (a[3], a[4]) != (b[3], b[4]):
             zero_width_default = a[3] == a[1] and a[4] is not None and a[2] is not None and a[4] <= a[2] + 1
-            sg = "end-position|default-parser-zero-width" if zero_width_default else "end-position|other|%s" % (a[7] or "nocode")
+            end_lines = file_lines(files.get(a[0], ""))
+            end_text = end_lines[a[3] - 1] if a[3] and 0 < a[3] <= len(end_lines) else ""
+            semi = a[3] == b[3] and a[4] is not None and b[4] is not None and a[4] == b[4] + 1 and end_text.split("#")[0].rstrip().endswith(";")
+            sg = "end-position|default-parser-zero-width" if zero_width_default else ("end-position|trailing-semicolon" if semi else "end-position|other|%s" % (a[7] or "nocode"))
             run.report(sg, case, "end position differs: default %s, native %s" % (a, b))
             break
 
